@@ -101,12 +101,45 @@ class MeanReg(RegressorMixin, BaseEstimator):
 # data: fixed small exact data sets; pair k = (D1, D2); both labels in both groups
 # ----------------------------------------------------------------------------------------------
 N_ROWS = 20
-N_PAIRS = 3
+N_PAIRS = 6
 _DATA = {}
+# pairs 3-5: D1 and D2 differ in the SET of sensitive-feature values (D2 subset of D1, D2 superset of D1, disjoint), in the
+# number of rows and in the label balance: (groups of D1, groups of D2, rows of D1, rows of D2, P(y=1) in D1, in D2)
+LAYOUTS = {3: ((0, 1, 2), (0, 1), 24, 14, 0.5, 0.3),
+           4: ((0, 1), (0, 1, 2), 16, 26, 0.35, 0.6),
+           5: ((0, 1), (2, 3), 20, 12, 0.5, 0.5)}
+LAYOUT_PAIRS = tuple(sorted(LAYOUTS))
+
+
+def layout_dataset(pair, which, width):
+    groups = LAYOUTS[pair][which - 1]
+    n = LAYOUTS[pair][which + 1]
+    p1 = LAYOUTS[pair][which + 3]
+    r = np.random.RandomState(5000 + 31 * pair + which + 101 * width)
+    X = r.randint(0, 6, size=(n, width)).astype(float)
+    A = np.array([groups[i % len(groups)] for i in range(n)])
+    # label driven by one column (another one in D2), shifted per group, thresholded to the wanted balance
+    col = X[:, which - 1] * (1 if which == 1 else -1) + 1.5 * (A % 2) + r.randint(0, 3, size=n)
+    thr = np.quantile(col, 1 - p1)
+    y = (col > thr).astype(int)
+    for g in groups:                       # both labels in every group (ThresholdOptimizer needs them)
+        rows = np.where(A == g)[0]
+        y[rows[0]], y[rows[1]] = 0, 1
+    if which == 2:
+        X1 = dataset(pair, 1, 3)["X"]
+        for j in range(min(width, 3)):     # no column of D2 has the mean of the same column of D1
+            k = 0
+            while abs(X[:, j].mean() - X1[:, j].mean()) < 1e-9:
+                X[k, j] = (X[k, j] + 1) % 6
+                k += 1
+    yr = (X[:, which - 1] / 8.0 + (A % 2) / 4.0 + r.randint(0, 3, size=n) / 16.0)
+    return {"X": X, "y": y, "A": A, "yr": yr, "id": which, "width": width}
 
 
 def dataset(pair, which, width=3):
     key = (pair, which, width)
+    if key not in _DATA and pair in LAYOUTS:
+        _DATA[key] = layout_dataset(pair, which, width)
     if key not in _DATA:
         # (the second data sets of pairs 0 and 1 are exchanged so that pair 0 combines an exactly separable D1,
         #  automatic nu = 0, with a D2 whose duality gap lies below its own automatic nu: F5c becomes observable)
@@ -146,6 +179,31 @@ def test_groups(pair, width):
     return np.concatenate([dataset(pair, 1, width)["A"], dataset(pair, 2, width)["A"]])
 
 
+def test_blocks(ad, cfg, pair):
+    """[(X, A)]: the rows of D1 and of D2 as prediction inputs; one block if both have the same number of columns, else two"""
+    w1, w2 = ad.widths(cfg, pair)
+    d1, d2 = dataset(pair, 1, w1), dataset(pair, 2, w2)
+    if w1 == w2:
+        return [(np.vstack([d1["X"], d2["X"]]), np.concatenate([d1["A"], d2["A"]]))]
+    return [(d1["X"], d1["A"]), (d2["X"], d2["A"])]
+
+
+def on_blocks(blocks, f):
+    """apply f(X, A) to every block and concatenate the flattened answers.  A block that raises (e.g. the rows of the data
+    set with the other number of columns) contributes a marker derived from the exception kind; if every block raises, the
+    first exception is the answer (an unfitted / broken estimator)."""
+    parts, first = [], None
+    for X, A in blocks:
+        try:
+            parts.append(np.asarray(f(X, A), dtype=float).ravel())
+        except Exception as e:  # noqa: BLE001
+            first = first or e
+            parts.append(np.full(2, -1000.0 - sum(map(ord, type(e).__name__))))
+    if first is not None and len([1 for q in parts if q.size == 2 and q[0] <= -1000.0]) == len(blocks):
+        raise first
+    return np.concatenate(parts)
+
+
 # ----------------------------------------------------------------------------------------------
 # adapters: how to build / fit / probe each estimator class
 # ----------------------------------------------------------------------------------------------
@@ -163,11 +221,16 @@ class Adapter:
     atol = ATOL
     claims_pickle = True
 
-    def widths(self, cfg):
-        return (3, 3)
+    wide_on_layout = True    # pair 4: D2 also has one more feature column (where the estimator / container allows)
+
+    def widths(self, cfg, pair=0):
+        return (3, 4) if (pair == 4 and self.wide_on_layout and self.allows_wide(cfg)) else (3, 3)
+
+    def allows_wide(self, cfg):
+        return True
 
     def data(self, cfg, pair, which):
-        return dataset(pair, which, self.widths(cfg)[which - 1])
+        return dataset(pair, which, self.widths(cfg, pair)[which - 1])
 
     def make(self, cfg):
         raise NotImplementedError
@@ -244,10 +307,17 @@ class TOAdapter(Adapter):
         X, A = self._xa(cfg, d["X"], d["A"])
         return est.fit(X, d["y"], sensitive_features=A)
 
+    def allows_wide(self, cfg):
+        return cfg != "tpr-df"     # named DataFrame columns a, b, c
+
     def probes(self, est, cfg, pair, seed):
-        X, A = self._xa(cfg, test_matrix(pair, 3), test_groups(pair, 3))
-        return {"pmf": lambda: _arr(est._pmf_predict(X, sensitive_features=A)),
-                "predict": lambda: _arr(est.predict(X, sensitive_features=A, random_state=seed))}
+        blocks = [self._xa(cfg, X, A) for X, A in test_blocks(self, cfg, pair)]
+        return {"pmf": lambda: on_blocks(blocks, lambda X, A: _arr(est._pmf_predict(X, sensitive_features=A))),
+                "predict": lambda: on_blocks(blocks, lambda X, A: _arr(est.predict(X, sensitive_features=A, random_state=seed)))}
+
+    def attrs(self, est):
+        # the fitted dictionary's KEY SET: one entry per sensitive-feature value of the data of the last fit
+        return {"interpolation_keys": lambda: _arr(sorted(float(k) for k in est.interpolated_thresholder_.interpolation_dict))}
 
     def lean_cfg(self, cfg):
         return "1"
@@ -259,7 +329,7 @@ class CRAdapter(Adapter):
     cfgs = ("nd-same", "nd-wide", "df-wide", "df-moved")
     quick_cfgs = ("nd-same", "nd-wide", "df-wide", "df-moved")
 
-    def widths(self, cfg):
+    def widths(self, cfg, pair=0):
         return (3, 3) if cfg in ("nd-same", "df-moved") else (3, 4)
 
     def make(self, cfg):
@@ -283,7 +353,7 @@ class CRAdapter(Adapter):
         return est.fit(self._x(cfg, d["X"], d["id"]))
 
     def probes(self, est, cfg, pair, seed):
-        w1, w2 = self.widths(cfg)
+        w1, w2 = self.widths(cfg, pair)
         X1, X2 = self._x(cfg, dataset(pair, 1, w1)["X"], 1), self._x(cfg, dataset(pair, 2, w2)["X"], 2)
         return {"transform1": lambda: _arr(est.transform(X1)), "transform2": lambda: _arr(est.transform(X2))}
 
@@ -318,12 +388,14 @@ class GSAdapter(Adapter):
         return est.fit(d["X"], y, sensitive_features=d["A"])
 
     def probes(self, est, cfg, pair, seed):
-        X = test_matrix(pair, 3)
-        return {"predict": lambda: _arr(est.predict(X))}
+        blocks = test_blocks(self, cfg, pair)
+        return {"predict": lambda: on_blocks(blocks, lambda X, A: _arr(est.predict(X)))}
 
     def attrs(self, est):
         return {"best_idx": lambda: _arr([est.best_idx_]),
-                "lambda_vecs": lambda: _arr(est.lambda_vecs_.values).ravel()}
+                "lambda_vecs": lambda: _arr(est.lambda_vecs_.values).ravel(),
+                "n_predictors": lambda: _arr([len(est.predictors_), est.lambda_vecs_.shape[0], est.lambda_vecs_.shape[1]]),
+                "lambda_index_groups": lambda: _arr(sorted({float(t[-1]) for t in est.lambda_vecs_.index}))}
 
     def rule_bits(self, rules):
         return rules["F5a"] + rules["F5b.GS"]
@@ -357,12 +429,15 @@ class EGAdapter(Adapter):
         return est.fit(d["X"], d["y"], sensitive_features=d["A"])
 
     def probes(self, est, cfg, pair, seed):
-        X = test_matrix(pair, 3)
-        return {"pmf": lambda: _arr(est._pmf_predict(X)), "predict": lambda: _arr(est.predict(X, random_state=seed))}
+        blocks = test_blocks(self, cfg, pair)
+        return {"pmf": lambda: on_blocks(blocks, lambda X, A: _arr(est._pmf_predict(X))),
+                "predict": lambda: on_blocks(blocks, lambda X, A: _arr(est.predict(X, random_state=seed)))}
 
     def attrs(self, est):
         return {"weights": lambda: _arr(est.weights_.sort_index().values),
-                "n_oracle_calls": lambda: _arr([est.n_oracle_calls_])}
+                "n_oracle_calls": lambda: _arr([est.n_oracle_calls_]),
+                "n_predictors": lambda: _arr([len(est.predictors_), est.lambda_vecs_.shape[0], est.lambda_vecs_.shape[1]]),
+                "lambda_index_groups": lambda: _arr(sorted({float(t[-1]) for t in est.lambda_vecs_.index}))}
 
     def lean_cfg(self, cfg):
         return "1" if self.nu_given(cfg) else "0"
@@ -404,8 +479,9 @@ class ADVAdapter(Adapter):
         return est.fit(d["X"], y, sensitive_features=d["A"])
 
     def probes(self, est, cfg, pair, seed):
-        X = test_matrix(pair, 3)
-        return {"raw": lambda: _arr(est._raw_predict(X)).ravel(), "predict": lambda: _arr(est.predict(X)).ravel()}
+        blocks = test_blocks(self, cfg, pair)
+        return {"raw": lambda: on_blocks(blocks, lambda X, A: _arr(est._raw_predict(X))),
+                "predict": lambda: on_blocks(blocks, lambda X, A: _arr(est.predict(X)))}
 
     def lean_cfg(self, cfg):
         return "0"   # warm_start=False in every configuration (the property's quantifier)
@@ -762,7 +838,7 @@ class CHECK(Check):
                   "PARTIAL: the machines model latches and attribute presence, "
                   "not Python object identity, pickle or clone internals, nor the learned numbers.")
     design_ref = "DESIGN.md section 4 (C19), section 5 (F5a-F5e), section 6 (partial)"
-    quick_cases = 1700
+    quick_cases = 1900
     thorough_cases = 600
     # sized for ~80-110 s of work on a quiet machine; the budget only cuts the run on an overloaded one
     quick_budget_s = int(os.environ.get("VERIF_C19_BUDGET_S", "225"))
@@ -775,8 +851,13 @@ class CHECK(Check):
             "sequences of length 4 over all configurations and 3 data pairs until the case budget; thorough: ALL 625 "
             "sequences of length 4 for every configuration (3 per class) + random length 4-5 sequences on the other "
             "data pairs. distinct = distinct (class, configuration, pair, sequence); non-trivial = at least 2 "
-            "operations including a fit. Data: 20 rows, small integer features, binary sensitive feature, both "
-            "labels in both groups; base learners are exact stump / one-feature least squares learners, one "
+            "operations including a fit. Data pairs 0-2: 20 rows, small integer features, binary sensitive feature, both "
+            "labels in both groups; pairs 3-5 (layout family, run first: [f1,f2], [f2,f1], [f1,c,f2] (+3 more in thorough) for "
+            "every configuration): the SET of sensitive-feature values differs between D1 and D2 (D2 subset {0,1} of {0,1,2}; "
+            "superset; disjoint {0,1} vs {2,3}), 24/14, 16/26, 20/12 rows, different label balance, and on pair 4 D2 has one more "
+            "feature column where estimator and container allow; predictions are compared on the rows of D1 AND of D2 (per "
+            "block if the widths differ), plus the KEY SETS of the fitted dictionaries (interpolation_dict keys, lambda_vecs_ "
+            "shape and groups, number of predictors); base learners are exact stump / one-feature least squares learners, one "
             "configuration per class wraps a learner whose *object* is history dependent (detects a missing clone). "
             "ThresholdOptimizer additionally with prefit=True around a learner fitted once by the harness (refit counter "
             "observed). Family set_params: [s,f], [s,c,f], [s,k,f], [x,s,y] with x,y in {f1,f2,c,k} (thorough also [s,x,y]) "
@@ -811,13 +892,15 @@ class CHECK(Check):
         return ad.cfgs if tier == "thorough" else ad.quick_cfgs
 
     def generate(self, rng, tier):
+        # the two small families first (a run that is cut by the wall-clock budget still covers them)
+        yield from self.layout_family(tier)
+        yield from self.params_family(tier)
         if tier == "quick":
             for name in ORDER:
                 ad = ADAPTERS[name]
                 for cfg in ad.quick_cfgs:
                     for ops in itertools.product(ALPHABET, repeat=3):
                         yield {"cls": name, "cfg": cfg, "pair": 0, "ops": list(ops)}
-        yield from self.params_family(tier)
         while True:
             if rng.random() < 0.12:
                 name = rng.choice(ORDER)
@@ -836,6 +919,16 @@ class CHECK(Check):
                 o = rng.choice(["f1", "f2", "f1", "f2", "p", "k", "c"])
                 ops.append("p" + str(rng.randint(0, 9)) if o == "p" else o)
             yield {"cls": name, "cfg": cfg, "pair": rng.randint(0, N_PAIRS - 1), "ops": ops}
+
+    def layout_family(self, tier):
+        """refits on data pairs whose group sets / row counts / column counts / label balance differ (pairs 3-5)"""
+        seqs = (["f1", "f2"], ["f2", "f1"], ["f1", "f2", "f1"], ["f1", "c", "f2"], ["f1", "k", "f2"], ["f1", "p5", "f2"])
+        for name in ORDER:
+            ad = ADAPTERS[name]
+            for cfg in self._cfgs(ad, tier):
+                for pair in LAYOUT_PAIRS:
+                    for ops in (seqs if tier == "thorough" else (seqs[0], seqs[1], seqs[3])):
+                        yield {"cls": name, "cfg": cfg, "pair": pair, "ops": list(ops)}
 
     def params_family(self, tier):
         """histories with one set_params(p=v): [s,f], [s,c,f], [s,k,f], [x,s,y] (thorough also [s,x,y]), x,y in {f1,f2,c,k}"""
@@ -885,7 +978,7 @@ class CHECK(Check):
         if case.get("kind") == "params":
             ops = ",".join(case["ops"])
             return [f"lifeparam.run {ad.lean} {ops}", f"lifeparam.spec {ops}"]
-        w = ",".join(str(x) for x in ad.widths(case["cfg"]))
+        w = ",".join(str(x) for x in ad.widths(case["cfg"], case["pair"]))
         ops = ",".join(case["ops"]) if case["ops"] else "-"
         cfg = ad.lean_cfg(case["cfg"])
         src_cfg = cfg if ad.lean in ("eg", "adv") else "-"
@@ -909,7 +1002,7 @@ class CHECK(Check):
         prefit = cfg == "prefit"
         spec = spec_trace(ops, prefit)
         base_unfitted = False    # prefit: the nested estimator was cloned (= unfitted) since construction
-        widths = ad.widths(cfg)
+        widths = ad.widths(cfg, case["pair"])
         tainted = False          # a fit raised: the state the property speaks about is undefined until fit/clone
         fitted_since_clone = []  # data ids fitted (attempted) on this object since construction / clone
         any_fit_before = False
